@@ -254,6 +254,17 @@ fn check_export_history(rng: &mut crate::prng::Rng, st: &mut Stats, tag: u64) ->
         dt.push_layer_with_blend(*rng.pick(&[1.0f32, 0.5]), *rng.pick(&[BlendMode::SrcOver, BlendMode::Src, BlendMode::Multiply]));
         dt.fill_rect(0., 0., w as f32, h as f32, &Source::Solid(solid(0x80402010)), &opts(BlendMode::SrcOver, 1., true));
         st.add("into_vec_with_an_open_layer", 1);
+        // the views are views of the surface, layer or no layer: a write through a mutable view shows in the others
+        let k = rng.below(n as u64) as usize;
+        let word = 0xc0804020u32;
+        if rng.chance(0.5) {
+            dt.get_data_mut()[k] = word;
+        } else {
+            dt.get_data_u8_mut()[4 * k..4 * k + 4].copy_from_slice(&word.to_le_bytes());
+        }
+        if dt.get_data()[k] != word || dt.get_data_u8()[4 * k..4 * k + 4] != word.to_le_bytes() {
+            return Some(format!("with a layer open, a write of {} to pixel {} through a mutable view reads back as {} through get_data", hex(word), k, hex(dt.get_data()[k])));
+        }
     }
     let shown = dt.get_data().to_vec();
     let shown_bytes = dt.get_data_u8().to_vec();
@@ -295,6 +306,45 @@ pub fn run(ctx: &Ctx) -> Outcome {
         }
         co
     });
+    // words built from extreme bytes (0, 1, 127, 128, 254, 255 in every colour position of a transparent pixel,
+    // and every valid extreme combination otherwise), each in turn as the first pixel, the last pixel and a whole row
+    if !ctx.miri {
+        let ext = [0u32, 1, 127, 128, 254, 255];
+        let mut words: Vec<u32> = Vec::new();
+        for a in ext {
+            for r in ext {
+                for g in ext {
+                    for b in ext {
+                        if a == 0 || (r <= a && g <= a && b <= a) {
+                            words.push(pack(a, r, g, b));
+                        }
+                    }
+                }
+            }
+        }
+        let nw = words.len() as u64;
+        run_cases(ctx, &mut out, SubSpec { name: "extreme_byte_words", cases: nw, exhaustive: true, max_secs: 300. }, |i, want, st| {
+            let word = words[i as usize];
+            let other = words[((i * 7 + 3) % nw) as usize];
+            let (w, h) = (5, 3);
+            let mut px = vec![other; 15];
+            px[0] = word;
+            px[14] = word;
+            for k in 5..10 {
+                px[k] = word;
+            }
+            let mut co = CaseOut::default();
+            co.hash = word as u64;
+            co.nontrivial = true;
+            if let Some(v) = check_surface(w, h, &px, st, with_png, 20_000 + i) {
+                co.viol("C19", v);
+            }
+            if want || !co.violations.is_empty() {
+                co.desc = Some(J::s(&format!("5x3 surface of {} with {} as first pixel, last pixel and middle row", hex(other), hex(word))));
+            }
+            co
+        });
+    }
     run_cases(ctx, &mut out, SubSpec { name: "random_surfaces", cases: if ctx.miri { 240 } else { ctx.n(3_000, 60_000) }, exhaustive: false, max_secs: if ctx.quick() { 30. } else { 600. } }, |i, want, st| {
         let mut rng = ctx.rng("random_surfaces", i);
         let w = rng.int(0, 17) as i32;
